@@ -3,8 +3,10 @@ compute_inp_hashes; os.stat and compute_file_digest are stubs with arbitrary ans
 
 from __future__ import annotations
 
+import stepup.core.hash  # noqa: F401  (imported before CrossHair starts tracing)
+
 DIG = [b"\x01" * 32, b"\x02" * 32, b"\x03" * 32]
-MT = [7.0, 8.0, 9.0]  # mtimes are looked up by index: float(symbolic int) is beyond the solver
+MT = [7.0, 8.0, 9.0]  # recorded mtime is MT[1]: the current one may be older, equal or newer; mtimes are looked up by index: float(symbolic int) is beyond the solver
 
 
 class _St:
@@ -51,8 +53,8 @@ def refreshed_contract(d_mode: int, d_size: int, d_mtime: int, d_ino: int, d_dig
     """The recorded values are fixed; each current value differs from its record by d_* (0 = same)."""
     from stepup.core.hash import FileHash
 
-    o_mode, o_size, o_mtime, o_ino, o_dig = 33188, 5, MT[0], 11, 0
-    n_mode, n_size, n_mtime, n_ino, n_dig = o_mode + d_mode, o_size + d_size, MT[d_mtime], o_ino + d_ino, o_dig + d_dig
+    o_mode, o_size, o_mtime, o_ino, o_dig = 33188, 5, MT[1], 11, 0
+    n_mode, n_size, n_mtime, n_ino, n_dig = o_mode + d_mode, o_size + d_size, MT[d_mtime], o_ino + d_ino, o_dig + d_dig  # d_mtime == 1 means unchanged
     calls = []
     undo = _install(exists, n_mode, n_mtime, n_size, n_ino, n_dig, calls)
     try:
@@ -77,8 +79,8 @@ def compute_inp_contract(d_mode: int, d_size: int, d_mtime: int, d_ino: int, d_d
                          exists: bool) -> bool:
     from stepup.core.hash import FileHash, compute_inp_hashes
 
-    o_mode, o_size, o_mtime, o_ino, o_dig = 33188, 5, MT[0], 11, 0
-    n_mode, n_size, n_mtime, n_ino, n_dig = o_mode + d_mode, o_size + d_size, MT[d_mtime], o_ino + d_ino, o_dig + d_dig
+    o_mode, o_size, o_mtime, o_ino, o_dig = 33188, 5, MT[1], 11, 0
+    n_mode, n_size, n_mtime, n_ino, n_dig = o_mode + d_mode, o_size + d_size, MT[d_mtime], o_ino + d_ino, o_dig + d_dig  # d_mtime == 1 means unchanged
     calls = []
     undo = _install(exists, n_mode, n_mtime, n_size, n_ino, n_dig, calls)
     try:
